@@ -319,7 +319,7 @@ class SqliteDB(object):
 
 
     def in_(self, task_id):
-        if task_id in self._cache:
+        if task_id in self._dirty:
             return True
         if self._conn.execute('select task_id from doit where task_id=?',
                               (task_id,)).fetchone():
